@@ -83,7 +83,15 @@ func (r *yieldRewriter) rewriteRanges(block *ast.BlockStmt) {
 							// named integer type, declared at package level in this or an imported package
 							obj := t.Obj()
 							switch {
-							case obj.Pkg() == nil || obj.Parent() != obj.Pkg().Scope():
+							case obj.Pkg() == nil:
+							case obj.Parent() != obj.Pkg().Scope():
+								// declared locally, the iterator is declared right in front of the loop,
+								// where the name denotes the same type (or something else shadows it)
+								if scope := r.pkg.Types.Scope().Innermost(n.Pos()); scope != nil {
+									if _, o := scope.LookupParent(obj.Name(), n.Pos()); o == obj {
+										x = X.Call(X.Ident(obj.Name()), n.X)
+									}
+								}
 							case obj.Pkg() == r.pkg.Types:
 								x = X.Call(X.Ident(obj.Name()), n.X)
 							default:
